@@ -139,10 +139,17 @@ func run(steps []step) {
 				}
 			}
 		case scn.OpTracer:
+			n := len(st.sevs)
+			traced, untraced := pkga.Tracer, pkga.Untraced
 			if st.ev.Pkg == "pkgb" {
-				pkgb.Tracer(st.sevs, st.texts)
-			} else {
-				pkga.Tracer(st.sevs, st.texts)
+				traced, untraced = pkgb.Tracer, pkgb.Untraced
+			}
+			for k := 0; k < st.ev.EchoBefore; k++ {
+				untraced(st.sevs[n-1:], st.texts[n-1:])
+			}
+			traced(st.sevs, st.texts)
+			for k := 0; k < st.ev.EchoAfter; k++ {
+				untraced(st.sevs[n-1:], st.texts[n-1:])
 			}
 		case scn.OpLevel, scn.OpPkg, scn.OpUnset:
 			applyChange(st.ev.Op)
